@@ -78,7 +78,7 @@ KINDS = {
     "methods": "generated client method does not send its function's constructor with arguments in the schema's parameter positions / does not return the declared result kind",
     "wrappers": "hand-written wrapper does not carry the id and layout of its schema line",
     "skeleton": "the body of the client method is not 'send the request, return its answer' (generated: call; iferr; assert; "
-                "ifnotok-panic; ret - hand-written wrapper: call; iferr; ret-assert): a statement in front of the request (a cached "
+                "ifnotok-error; ret - hand-written wrapper: call; iferr; ret-assert): a statement in front of the request (a cached "
                 "copy may answer instead of the server), between the answer and the return, a second request, a missing check",
     "extra-field": "the registered Go struct has a field the codec's layout (and so the schema definition) does not have "
                    "(constructor:GoField) - whatever its tag: the encoder skips a field tagged tl:\"-\", the decoder reads it "
